@@ -176,6 +176,14 @@ func ruleTypeCopy(c *Ctx) []Obligation {
 					if !oks || s2.Addr != fa {
 						continue
 					}
+					// `copy.F = statement.G != nil`: computed presence stored unconditionally replaces the inherited
+					// value by false whenever the statement does not restate the substatement
+					if x, _, okn := nilTest(s2.Val); okn {
+						if _, gf, base := loadedField(x); gf != nil && (isParamN(fn, base, 0) || isParamN(fn, resolveArg(rootOf(base)), 0)) {
+							obs = append(obs, bad(R, fmt.Sprintf("%s: %s is overlaid where the statement carries it", site.what, f.Name()), c.InstrPos(s2),
+								"the attribute is set to `statement."+recordedFieldName(gf)+" != nil` on every path: a derivation step that does not restate "+recordedFieldName(gf)+" clears what the chain above it established"))
+						}
+					}
 					for _, g := range guardsAt(s2.Block()) {
 						// list-valued substatements (enum, bit, …): the test is `the statement has at least one`
 						if bo, isB := g.Cond.(*ssa.BinOp); isB && isLenOf(bo.X) {
